@@ -26,6 +26,7 @@ type walker struct {
 	c      *core.Ctx
 	reg    *ref.Registry
 	digest []string
+	extra  map[string]uint32 // "Enum.Name" registered by the case itself (vendor extensions)
 }
 
 func (w *walker) obs(format string, a ...any) { w.digest = append(w.digest, fmt.Sprintf(format, a...)) }
@@ -174,6 +175,9 @@ func (w *walker) enums() {
 			w.obs("enum %s %s=%X", e.Name, n, v)
 		}
 		for n, v := range obs {
+			if xv, isExtra := w.extra[e.Name+"."+n]; isExtra && xv == v {
+				continue
+			}
 			pv, ok := e.Values[n]
 			w.check(ok && pv == v, "C17:enum-differs:"+e.Name+":"+n, fmt.Sprintf("%s.%s=%X is registered; the pin says %X (present=%v)", e.Name, n, v, pv, ok), nil)
 		}
@@ -450,10 +454,10 @@ func Spec() *core.Spec {
 		ID:    "C17",
 		Level: "exploration",
 		Rule: "exhaustive walk of the registry through the public API (TagString over 0x420000-0x4203FF and 0x540000-0x5400FF, every pinned enumeration value and mask flag, " +
-			"written and read back by name through XML, JSON, binary and the text form), repeated in 3 fresh processes whose observations are compared; plus every element, enumeration-value and mask-flag name used by the 5318 messages of the shipped OASIS vectors (documents produced elsewhere) resolved through pin and library; " +
+			"written and read back by name through XML, JSON, binary and the text form), repeated in 3 fresh processes whose observations are compared; once more in a fresh process after vendor extension values (0x8000000x) were registered for three already registered enumerations; plus every element, enumeration-value and mask-flag name used by the 5318 messages of the shipped OASIS vectors (documents produced elsewhere) resolved through pin and library; " +
 			"distinct = distinct registered (scope,name) entries visited",
 		Assumptions: []string{"/verif/ref/registry.json is the pinned KMIP 1.0-1.4 registry (dumped from the pinned tree and reviewed against the specification tables)"},
-		Required:    []string{"checks", "unregistered_numbers", "unknown_names", "mask_values.named-pair", "oasis_names.tag", "oasis_names.enum", "oasis_names.mask"},
+		Required:    []string{"checks", "unregistered_numbers", "unknown_names", "mask_values.named-pair", "oasis_names.tag", "oasis_names.enum", "oasis_names.mask", "vendor_extension_values"},
 		EvalCounter: "checks",
 		Families: []core.Family{
 			{Name: "walk", Isolated: true, Exhaustive: true, N: func(string) int { return 3 }, Run: func(c *core.Ctx, r *core.Rand, i int) {
@@ -467,6 +471,28 @@ func Spec() *core.Spec {
 				c.Fact("entries", fmt.Sprint(len(w.digest)))
 				if i == 0 {
 					c.Sample(map[string]any{"observations": len(w.digest), "first": w.digest[:3], "digest": hex.EncodeToString(h[:8])})
+				}
+			}},
+			{Name: "vendor-extension", Isolated: true, Exhaustive: true, N: func(string) int { return 1 }, Run: func(c *core.Ctx, r *core.Rand, i int) {
+				// KMIP reserves 0x8XXXXXXX for extensions: an application registers vendor values for enumerations
+				// that are already registered. Every standard name must keep denoting its number, in both directions.
+				ttlv.RegisterEnum(kmip.TagCryptographicAlgorithm, map[kmip.CryptographicAlgorithm]string{0x80000001: "VendorCipher"})
+				ttlv.RegisterEnum(kmip.TagObjectType, map[kmip.ObjectType]string{0x80000001: "VendorObject", 0x80000002: "VendorObject2"})
+				ttlv.RegisterEnum(kmip.TagResultReason, map[kmip.ResultReason]string{0x80000001: "VendorReason"})
+				w := &walker{c: c, reg: ref.LoadRegistry(), extra: map[string]uint32{"CryptographicAlgorithm.VendorCipher": 0x80000001,
+					"ObjectType.VendorObject": 0x80000001, "ObjectType.VendorObject2": 0x80000002, "ResultReason.VendorReason": 0x80000001}}
+				w.enums()
+				for k, v := range w.extra {
+					en, name, _ := strings.Cut(k, ".")
+					tag := w.reg.Tags[en]
+					c.Count("vendor_extension_values", 1)
+					bv, err := ttlv.EnumByName(tag, name)
+					w.check(err == nil && bv == v && ttlv.EnumName(tag, v) == name, "C17:vendor-extension:"+k, fmt.Sprintf("vendor value %s=%#x is not registered both ways (by name: %#x, %v; by number: %q)", k, v, bv, err, ttlv.EnumName(tag, v)), nil)
+					val := ttlv.Value{Tag: tag, Value: ttlv.Enum(v)}
+					x := ttlv.MarshalXML(val)
+					var back ttlv.Value
+					err = ttlv.UnmarshalXML(x, &back)
+					w.check(err == nil && back.Value == ttlv.Enum(v) && strings.Contains(string(x), name), "C17:vendor-extension:"+k, fmt.Sprintf("vendor value %s does not round trip by name through XML: %s (%v)", k, x, err), nil)
 				}
 			}},
 			{Name: "oasis-names", Exhaustive: true, N: func(string) int { return len(c02.OasisMessages()) }, Run: func(c *core.Ctx, r *core.Rand, i int) {
